@@ -431,10 +431,17 @@ def root_hop_menu(R):
 def finalize(R):
     """replay solver counterexamples natively; report what reproduces"""
     seen = set()
+    # per key type: a root signed by its own key (tough's signer; for ECDSA also the fixtures signed by other tooling) verifies, and stops verifying
+    # when a signature bit changes.  Model validation on every run, and the replay of the Key::verify wiring counterexamples.
+    kt = R.replay('key_types', {})
+    R.differential['scenarios'] += kt['cases']; R.differential['agree'] += kt['cases'] - len(kt['deviations'])
+    for d in kt['deviations'][:2]:
+        R.report_violation('signature verification per key type: ' + d['what'], {'op': 'key_types', 'what': d['what']})
     for cx in R.counterexamples:
         sc = cx.get('scenario')
         if cx.get('site_replayed'): continue
         if not sc or sc.get('kind') != 'verify_role':
+            if cx['obligation'].startswith('Key::verify[') and kt['deviations']: continue          # reproduced by the key-type scenarios above
             R.inconclusive.append(f'counterexample for "{cx["obligation"]}" has no replayable scenario'); continue
         key = (sc['which'], cx['group'])
         if key in seen: continue
@@ -453,5 +460,7 @@ def finalize(R):
 def replay_file(R, path):
     import json
     sc = json.load(open(path))['scenario']
+    if sc.get('op') == 'key_types':
+        print(json.dumps(R.replay('key_types', {}))); return 0
     res = R.replay('verify_role', sc); print(json.dumps(res))
     return 0
